@@ -268,3 +268,55 @@ def first_diffs(a, b, n=8):
         bad = a != b
     idx = np.argwhere(bad)[:n]
     return [{"at": i.tolist(), "a": a[tuple(i)].item(), "b": b[tuple(i)].item()} for i in idx]
+
+
+# ----------------------------------------------------------------------------------------------
+# synthetic cost volumes / disparity maps
+# ----------------------------------------------------------------------------------------------
+def make_cv(costs, disps, type_measure="min", window_size=1, subpix=1, validity=None, conf=None, conf_names=None,
+            row0=0, col0=0, measure="sad", cmax=None):
+    """Cost-volume dataset as the matching-cost step leaves it (allocate_cost_volume + compute attrs)."""
+    costs = np.asarray(costs, dtype=np.float32)
+    rows, cols, nd = costs.shape
+    cv = xr.Dataset(
+        {"cost_volume": (["row", "col", "disp"], costs)},
+        coords={"row": np.arange(row0, row0 + rows), "col": np.arange(col0, col0 + cols), "disp": np.asarray(disps)},
+    )
+    cv.attrs = {
+        "no_data_img": -9999, "valid_pixels": 0, "no_data_mask": 1, "crs": None, "transform": None,
+        "window_size": window_size, "subpixel": subpix, "band_correl": None, "offset_row_col": (window_size - 1) // 2,
+        "measure": measure, "type_measure": type_measure, "cmax": cmax if cmax is not None else 1000,
+        "sampling_interval": 1, "col_to_compute": np.arange(col0, col0 + cols), "disparity_source": [int(np.floor(disps[0])), int(np.ceil(disps[-1]))],
+    }
+    if validity is None:
+        validity = np.zeros((rows, cols), np.uint16)
+    cv["validity_mask"] = xr.DataArray(np.asarray(validity), dims=["row", "col"])
+    if conf is not None:
+        cv.coords["indicator"] = list(conf_names)
+        cv["confidence_measure"] = xr.DataArray(np.asarray(conf, dtype=np.float32), dims=["row", "col", "indicator"])
+    return cv
+
+
+def synth_costs(rng, rows, cols, nd, levels=4, nan_kind="mixed", floaty=False):
+    """Quantised costs (ties) with NaN prefixes / suffixes / holes / all-NaN pixels.
+    Returns costs and per-pixel [lo, hi] index interval outside which costs are NaN."""
+    if floaty:
+        c = rng.random((rows, cols, nd)).astype(np.float32) * 100
+    else:
+        c = rng.integers(0, levels, (rows, cols, nd)).astype(np.float32)
+    lo = np.zeros((rows, cols), int)
+    hi = np.full((rows, cols), nd - 1, int)
+    if nan_kind in ("mixed", "interval"):
+        a = rng.integers(0, nd, (rows, cols))
+        b = rng.integers(0, nd, (rows, cols))
+        sel = rng.random((rows, cols)) < 0.5
+        lo = np.where(sel, np.minimum(a, b), lo)
+        hi = np.where(sel, np.maximum(a, b), hi)
+        k = np.arange(nd)[None, None, :]
+        c[(k < lo[..., None]) | (k > hi[..., None])] = np.nan
+    if nan_kind in ("mixed", "holes"):
+        c[rng.random(c.shape) < 0.12] = np.nan
+    if nan_kind in ("mixed", "allnan"):
+        sel = rng.random((rows, cols)) < 0.08
+        c[sel] = np.nan
+    return c, lo, hi
